@@ -208,7 +208,7 @@ func init() {
 			"random long arrays (<=40) over tiny alphabets, arrays of 100-600 elements with a few localised edits, arrays mixing scalars with aligned same-kind containers that differ inside, and random nested documents (context only); " +
 			"oracle: textbook LCS DP for the edit counts, stepwise reference interpretation for the context lines; non-trivial = non-empty diff; distinct = distinct (a, b)",
 		Floors: map[string]int{"index_hunks": 20000, "before_is_element": 5000, "before_is_boundary": 5000, "after_is_element": 5000, "after_is_boundary": 5000,
-			"long_array": 2000, "very_long_array": 1000, "b_is_patch_result": 5000, "a_is_patch_result": 5000, "array_over_1024": 30, "mixed_recursed": 500, "hunk_nested_arrays": 2000},
+			"long_array": 2000, "very_long_array": 1000, "b_is_patch_result": 5000, "a_is_patch_result": 5000, "array_over_1024": 30, "mixed_recursed": 500, "blank_element_pairs": 10000, "old_value_copied_further_along": 500, "hunk_nested_arrays": 2000},
 		Assumptions: []string{
 			"minimality is a count against the optimum (len - LCS on each side), not identity of the script: several optimal scripts exist",
 			"for arrays holding containers only the upper bound is demanded (recursing removes fewer elements than an LCS over whole values)",
@@ -254,6 +254,22 @@ func init() {
 			} else {
 				b = mutateScalarArray(c.R, prof, a)
 			}
+			c06Judge(c, a, b, i%4, true)
+		},
+	})
+	p.Strata = append(p.Strata, mon.Stratum{
+		Name: "blank-elements",
+		N:    qt(20000, 1000000),
+		Run: func(c *mon.Ctx, i int) {
+			// arrays over blank values (null, "", {}, []) and a few others: a blank is an element like any
+			// other, also as the only thing between two edits
+			prof := gen.PTiny.With(func(p *gen.Profile) { p.Scalars = []any{nil, "", map[string]any{}, []any{}, 1.0, "a", "b"} })
+			a := gen.Array(c.R, prof, c.R.Range(1, 8), 0)
+			b := mutateScalarArray(c.R, prof, a)
+			if c.R.Chance(0.5) {
+				b = mutateScalarArray(c.R, prof, b)
+			}
+			c.Feature("blank_element_pairs")
 			c06Judge(c, a, b, i%4, true)
 		},
 	})
@@ -324,6 +340,21 @@ func init() {
 			}
 			if recursed {
 				c.Feature("mixed_recursed")
+			}
+			if recursed && i%3 == 0 {
+				// a copy of a container's OLD value turns up further along in b (a record was duplicated, then the
+				// original edited), or a copy of a NEW value further along in a: the aligned pair is still a change in place
+				for k := range a {
+					if isContainerKind(a[k]) != "" && !ref.Eq(a[k], b[k], ref.List) {
+						if i%6 == 0 {
+							b = append(b, ref.Clone(a[k]))
+						} else {
+							a = append(a, ref.Clone(b[k]))
+						}
+						c.Feature("old_value_copied_further_along")
+						break
+					}
+				}
 			}
 			c06Judge(c, a, b, i%4, false)
 		},
